@@ -149,6 +149,12 @@ COMPR = [
 ]
 
 
+# `return` without a value leaves the innermost function with NULL
+BARE_RETURN = [("def f() do return; end; f()", "NULL"), ("def f() do if c == 1 then return; 5 end; f()", None),
+               ("def f() do for i in [1, 2] do if i == c then return; end; 7 end; f()", None), ("return;", "NULL"),
+               ("def f() return; [f()]", "[NULL]"), ("def g() do def h() do return; end; h(); 3 end; g()", "3")]
+
+
 def bounds(tier):
     return {"depth": 2 if tier == "quick" else 3, "loop_bound": 3, "collection_size": 3,
             "shapes": len(shapes(tier)), "comprehension_forms": len(COMPR)}
@@ -161,6 +167,8 @@ def cells(tier, seed):
             out.append({"k": "loops", "shape": i, "name": name, "sel": p})
     for i in range(len(ITER)):
         out.append({"k": "iter", "i": i})
+    for i in range(len(BARE_RETURN)):
+        out.append({"k": "bare", "i": i})
     for i, c in enumerate(COMPR):
         for ck in c[1].split():
             out.append({"k": "compr", "i": i, "ck": ck})
@@ -179,6 +187,19 @@ def run(ctx, cell):
         return run_iter(ctx, cell)
     if k == "compr":
         return run_compr(ctx, cell)
+    if k == "bare":
+        ctx.reach("loops")
+        text, exp = BARE_RETURN[cell["i"]]
+        c = ctx.int("c", 0, 3)
+        out = run_ckl(text, {"c": vint(c)})
+        if exp is None:
+            exp = "NULL" if ((c == 1) if "c == 1" in text else ((c == 1) | (c == 2))) else ("5" if "5 end" in text else "7")
+        detail = lambda: {"program": text, "c": int(c), "got": ctx.plain(out), "expected": exp}
+        if out.kind != "ok":
+            ctx.fail("C04:bare-return:%s" % out.kind, detail)
+            return out
+        ctx.check(str(out.value) == exp, "C04:bare-return:wrong-value", detail)
+        return out
     raise AssertionError(k)
 
 
